@@ -4,3 +4,4 @@ import AM.Model.MatcherPrint
 import AM.Model.MatcherClassic
 import AM.Model.MatcherUTF8
 import AM.Model.MatcherCompat
+import AM.Props.C16
